@@ -1,5 +1,5 @@
 """Validity predicates for parse trees and derivations handed out by pyformlang."""
-MAX_NODES = 400
+MAX_NODES = 100000      # a real derivation may be large (vanishing subtrees); beyond this the case is inconclusive
 
 
 def _kind(v):
@@ -55,9 +55,14 @@ def validate_tree(tree, prods, start, word):
     on_path = set()
     try:
         visit(tree)
+    except RecursionError:
+        from .common import Inconclusive
+        raise Inconclusive("parse tree too deep to validate")
     except OverflowError:
         if "cyclic_tree" not in problems:
-            problems.append("too_many_nodes")
+            # size alone is never a violation: any finite tree whose nodes are productions is a real derivation
+            from .common import Inconclusive
+            raise Inconclusive("parse tree with more than %d nodes" % MAX_NODES)
         return problems
     if tuple(leaves) != tuple(word):
         problems.append("leaves_spell:%r" % (tuple(leaves),))
